@@ -46,6 +46,14 @@ pub fn c04_case(ctx: &mut Ctx, rng: &mut Rng, stage: &str) {
         if case.opts[0].ignore_space {
             case.sentences[3] = "  \u{3000} ".to_string();
         }
+        // two different sentences with the same number of characters
+        if case.sentences.len() > 5 {
+            let rev: String = case.sentences[5].chars().rev().collect();
+            if rev != case.sentences[5] {
+                case.sentences[4] = rev;
+                ctx.bucket("two_sentences_of_equal_length");
+            }
+        }
     }
     let prep = prepare(&case);
     let dict = match prep {
@@ -89,6 +97,31 @@ pub fn c04_case(ctx: &mut Ctx, rng: &mut Rng, stage: &str) {
             Ok(t) if t == expected[i] => {}
             other => {
                 ctx.violation("same_options_different_result", "C04:same_options_different_result", format!("two tokenizers of the same dictionary whose options ended up equal (one through a history of setter calls) differ on {:?}: {:?} vs {:?}", s, other.map(|t| toks_brief(&t)), toks_brief(&expected[i])), json!({"files": case.texts(), "opts": o, "sentences": case.sentences}));
+                return;
+            }
+        }
+    }
+    // a worker created after another worker of the same tokenizer was used and dropped is as fresh as the first
+    {
+        let longest = case.sentences.iter().max_by_key(|s| s.len()).cloned().unwrap_or_default();
+        let mut w1 = tok.new_worker();
+        let _ = tokenize(&mut w1, &longest);
+        drop(w1);
+        let mut w2 = tok.new_worker();
+        ctx.eval();
+        let r = guarded(|| {
+            let before = read_tokens(&w2);
+            w2.tokenize();
+            (before, read_tokens(&w2))
+        });
+        match r {
+            Ok((a, b)) if a.is_empty() && b.is_empty() => ctx.bucket("new_worker_after_dropped_worker_is_fresh"),
+            Ok((a, b)) => {
+                ctx.violation("new_worker_is_not_fresh", "C04:new_worker_is_not_fresh", format!("after another worker tokenized {:?} and was dropped, a new worker shows {:?} before and {:?} after tokenize() without reset_sentence (a fresh worker holds the empty sentence: no tokens)", longest, toks_brief(&a), toks_brief(&b)), json!({"files": case.texts(), "opts": o}));
+                return;
+            }
+            Err(p) => {
+                ctx.violation("new_worker_is_not_fresh", &format!("C04:new_worker:{}", panic_class(&p)), p, json!({"files": case.texts(), "opts": o}));
                 return;
             }
         }
@@ -367,7 +400,7 @@ pub fn c12_case(ctx: &mut Ctx, rng: &mut Rng) {
     if case.spec.cat_index("SPACE").is_some() && rng.chance(0.3) {
         // SPACE is whatever char.def says it is: give it a character that is not Unicode whitespace as well
         // (its line comes last, so it belongs to SPACE alone), and keep it out of the lexicon surfaces
-        let e = ['Z', '-', '.', '2'][rng.below(4)];
+        let e = ['Z', '-', '.', '2', '\u{FFFF}', '\u{FFFF}'][rng.below(6)];
         let keep = |r: &LexRow| !r.surface.contains(e);
         if case.spec.lex.iter().any(keep) {
             case.spec.lex.retain(keep);
@@ -577,6 +610,18 @@ pub fn c06_witness_65536_ids(ctx: &mut Ctx, prop: &str) {
     }
     let tok = Tokenizer::new(d);
     let mut w = tok.new_worker();
+    // the word whose right id is 65535 followed by another word: the connection (65535, 1) costs 11
+    match tokenize(&mut w, "ba") {
+        Ok(t) if t.len() == 2 && t[0].r == 65535 && t[1].r == 1 && t[1].total == 11 => {}
+        Ok(t) => {
+            ctx.violation("mapped_tokens_differ", &key, format!("tokens of \"ba\": {:?}; expected b(r=65535) a(r=1), total 11", toks_brief(&t)), case);
+            return;
+        }
+        Err(p) => {
+            ctx.violation("tokenize_panicked", &key, p, case);
+            return;
+        }
+    }
     match tokenize(&mut w, "ab") {
         Ok(t) if t.len() == 2 && t[0].r == 1 && t[1].r == 65535 && t[1].total == 5 => ctx.bucket("witness_65536_right_ids_mapped_ok"),
         Ok(t) => ctx.violation("mapped_tokens_differ", &key, format!("tokens of \"ab\": {:?}; expected a(r=1) b(r=65535), total 5", toks_brief(&t)), case),
